@@ -27,6 +27,7 @@ import treegen as T        # noqa: E402
 import toolcheck as TC     # noqa: E402
 import img_tie as IMG      # noqa: E402
 import imgpost_tie as IMGP  # noqa: E402
+import e2e_tie as E2E     # noqa: E402
 
 LEVEL = "proof"
 
@@ -189,6 +190,19 @@ def run(ctx):
     drv_rd = core.build_model_driver("C01reader", "ExtractC01Reader.v", os.path.join(HERE, "reader_driver.ml"))
     # lib/fstree stage (coq/ImgPost): fstree_add_generic + fstree_post_process against C11.fs_add / post_process + to_img
     drv_imgpost = core.build_model_driver("C01imgpost", "ExtractImgPost.v", os.path.join(HERE, "imgpost_driver.ml"))
+    # composed packer / reader (coq/ImgE2E): pack_all against the real gensquashfs main() with a toy compressor, read_all on its images
+    h_e2e = E2E.build_harness(asan, HERE)
+    drv_e2e = E2E.driver(core, HERE)
+    ctx.trusted += ["props/C01/h_e2e.c (bin/gensquashfs/src/*.c of the working tree with main renamed and sqfs_compressor_create redirected "
+                    "by the linker to a toy compressor), props/C01/e2e_driver.ml (xxHash32 re-implemented in OCaml, parsing / printing, "
+                    "toy compressors of coq/ImgE2E/DriverDefs.v), e2e_stubs.c (system zlib / liblzma / liblz4 / libzstd as decompressor "
+                    "oracle for real images), e2e_tie.py (generator; plain-Python reading of pack file + xattr map file = the expected "
+                    "tree, incl. filemap_xattr.c's reverse application order)",
+                    "coq/ImgE2E/PackAll.v: pack_all is a hand-written composition (which model output feeds which model input: file "
+                    "order = fs->files, apply_dfs order = pre-order incl. hard link entries, the flush offset); its check is the "
+                    "byte-exact tie against the real main()",
+                    "the xattr reader inside read_all is the reader SPECIFICATION of coq/ImgXattr (doc/format.adoc), not a model of "
+                    "xattr_reader.c"]
     ctx.trusted += ["props/C01/imgpost_driver.ml, imgpost_cases.py, imgpost_tie.py (add-operation lists -> extracted C11 fs_add/post_process "
                     "+ ImgPost.Bridge.to_img, compared exactly with h_img.c's dump of fs->inodes)"]
     ctx.trusted += ["props/C01/reader_driver.ml (whole image bytes -> extracted ReadImage.read_image_c05, listing of the tree), the W "
@@ -213,7 +227,7 @@ def run(ctx):
 
     rnd = random.Random(ctx.seed * 7919 + 1)
     tie_bad, prop_bad = [], []
-    with ThreadPoolExecutor(max_workers=6) as ex:
+    with ThreadPoolExecutor(max_workers=7) as ex:
         f_imgpost = ex.submit(IMGP.stage, ctx, h_img, drv_imgpost, drv_img, random.Random(ctx.seed * 7919 + 6), quick,
                               random.Random(ctx.seed * 7919 + 5))
         f_inode = ex.submit(check_inode_tie, ctx, h_inode, h_inode_plain, drv, random.Random(ctx.seed * 7919 + 2), quick)
@@ -221,6 +235,7 @@ def run(ctx):
         f_xattr = ex.submit(TC.check_xattr_tie, ctx, h_xattr, drv, random.Random(ctx.seed * 7919 + 3), quick, ENV) if h_xattr else None
         f_tool = ex.submit(TC.tool_oracle, ctx, asan, plain, random.Random(ctx.seed * 7919 + 4), quick, ENV)
         f_img = ex.submit(IMG.stage, ctx, h_img, drv_img, random.Random(ctx.seed * 7919 + 5), quick, drv_rd)
+        f_e2e = ex.submit(E2E.stage, ctx, h_e2e, drv_e2e, random.Random(ctx.seed * 7919 + 7), quick, asan["tools"]["gensquashfs"])
         stats, tb, pb, types_seen = f_inode.result()
         tie_bad += tb
         prop_bad += pb
@@ -235,12 +250,14 @@ def run(ctx):
         tstats = f_tool.result()
         istats = f_img.result()      # reports its own violations (tie:serialize-fstree, img-readback:*)
         pstats = f_imgpost.result()  # reports its own violations (tie:fstree-post, imgpost-property:*)
+        estats = f_e2e.result()      # reports its own violations (tie:e2e-pack-all, e2e-readback:*, e2e-readback-real:*)
     ctx.log("composition stage (serialize_fstree): %s" % istats)
     ctx.log("lib/fstree stage (add operations -> post-processed tree): %s" % pstats)
+    ctx.log("e2e stage (pack_all vs the real gensquashfs main(), read_all on its images): %s" % estats)
 
-    evals = pstats["cases"] + istats["cases"] + istats.get("whole_images", 0) + stats["enc"] + stats["dec"] + stats["mut"] + stats["ser"] + nidt + (xstats or {}).get("cases", 0) + tstats["images"]
+    evals = estats["cases"] + estats.get("real_images", 0) + pstats["cases"] + istats["cases"] + istats.get("whole_images", 0) + stats["enc"] + stats["dec"] + stats["mut"] + stats["ser"] + nidt + (xstats or {}).get("cases", 0) + tstats["images"]
     ctx.coverage["evaluations"] = evals
-    ctx.coverage["distinct_nontrivial"] = pstats["built"] + istats["impl_readback_ok"] + istats.get("c05_model_ok", 0) + stats["enc_wf"] + stats["dec_ok"] + stats["ser_ok"] + (xstats or {}).get("nontrivial", 0) + tstats["images_ok"]
+    ctx.coverage["distinct_nontrivial"] = estats["exact"] + estats.get("real_readback_ok", 0) + pstats["built"] + istats["impl_readback_ok"] + istats.get("c05_model_ok", 0) + stats["enc_wf"] + stats["dec_ok"] + stats["ser_ok"] + (xstats or {}).get("nontrivial", 0) + tstats["images_ok"]
     ctx.coverage["traces_validated_against_impl"] = evals
     ctx.coverage["exhaustive"] = False
     ctx.coverage["rule"] = (
@@ -260,10 +277,16 @@ def run(ctx):
         "(fstree_add_generic + fstree_post_process vs C11 model + ImgPost.to_img, exact dump of fs->inodes, verdicts on failure): "
         "shuffled add lists over a collision-prone name pool (prefix siblings, bytes >= 0x80), implicit directories made explicit, "
         "hard link chains / several links per target / links before and after their target and across directories, unclean target "
-        "spellings, EEXIST / ENOTDIR / EINVAL adds, dangling, directory and looping links, plus all trees of the composition stage; tool level: %d generated trees x configurations (seed %d). "
+        "spellings, EEXIST / ENOTDIR / EINVAL adds, dangling, directory and looping links, plus all trees of the composition stage; "
+        "e2e (pack_all vs the real gensquashfs main() with a toy compressor, every byte of the image; read_all on the C image and on "
+        "real-compressor images vs the input): pack files with 1..5 directories (explicit / implicit / made explicit later, shuffled "
+        "line order), 2..7 regular files (0..3 blocks of random / zero / repeated / zero-run data + tails of 1..bs-1 bytes, duplicates, "
+        "shared tails), symlinks, devices, fifos, sockets, 0..3 hard links (to files, non-files and links, before their target), "
+        "xattr map files with 0..5 sections (repeated keys, empty / shared long values, the same set on several nodes, sections "
+        "for hard links), block size 4096 / 8192, -e, -T, -j 1 / 4, toy modes store / run-length / zero-run-length; tool level: %d generated trees x configurations (seed %d). "
         "non-trivial = well-formed encoder case / decoder case accepted by the implementation / serialize case that succeeded / "
         "image that gensquashfs produced and that was compared completely" % (tstats["images"], ctx.seed))
-    ctx.coverage["distribution"] = dict(imgpost=pstats, img=istats, inode=stats, inode_types_wf=sorted(types_seen, key=int), idt=nidt, xattr=xstats, tool=tstats)
+    ctx.coverage["distribution"] = dict(e2e=estats, imgpost=pstats, img=istats, inode=stats, inode_types_wf=sorted(types_seen, key=int), idt=nidt, xattr=xstats, tool=tstats)
     for k in ("samples",):
         pass
     ctx.add_samples([dict(kind=k, input=i[:200], impl=(a or "")[:200], model=m[:200]) for k, i, a, m in []])
@@ -331,6 +354,10 @@ def replay(ctx, asan, plain, h_inode, h_xattr, drv):
         IMGP.evaluate(ctx, res, h_img, drv_img)
         ctx.coverage["evaluations"] = len(res)
         return
+    if kind == "e2e":
+        st = E2E.replay(ctx, E2E.build_harness(asan, HERE), E2E.driver(core, HERE), asan["tools"]["gensquashfs"], r)
+        ctx.coverage["evaluations"] = st["cases"]
+        return
     if kind in ("tool", "targeted"):
         TC.replay_tool(ctx, asan, plain, r, ENV)
         return
@@ -344,3 +371,4 @@ def setup():
     core.build_model_driver("C01img", "ExtractImg.v", os.path.join(HERE, "img_driver.ml"))
     core.build_model_driver("C01imgpost", "ExtractImgPost.v", os.path.join(HERE, "imgpost_driver.ml"))
     core.build_model_driver("C01reader", "ExtractC01Reader.v", os.path.join(HERE, "reader_driver.ml"))
+    E2E.driver(core, HERE)
